@@ -446,6 +446,18 @@ def gen_model_traces(r, quick):
         ops.append("opt ecma " + nums([0, 0, 0, r.choice(SIGMAS)]))
         ops.append("ecmatrace %d %d %s" % (r.range(1, 10 ** 6), r.range(5, steps), nums(gen_x0(r, n, None)[0])))
         out.append(ops)
+    for _ in range(k):     # ElitistCMA WITH a feasibility box: the driver re-evaluates every offspring with the model of PenalizingEvaluator
+        # (projection, f at the closest feasible point, penalty with the configured factor) and compares with the real fitness pair;
+        # small boxes and starts on the boundary / in a corner make infeasible offspring the rule
+        ops, n, kind, box = gen_objective(r, allow_box=False)
+        w = r.choice([0.25, 0.5, 1.0, 2.0])
+        lo = [-w * r.choice([1, 1, 2]) for _ in range(n)]; hi = [w * r.choice([1, 1, 2]) for _ in range(n)]
+        ops.append("softbox %s %s" % (nums(lo), nums(hi)))
+        pen = r.choice([None, fb(1.0), fb(1e-3), fb(1e6), fb(0.0)])
+        ops.append(optline("ecma", 0, 0, 0, r.choice([0, 0.5, 2.0]), active=r.choice([None, 0, 1]), rng=r.choice([None, "private"]), penalty=pen))
+        x0 = [r.choice([lo[i], hi[i], 0.0, lo[i] + (hi[i] - lo[i]) * r.range(0, 8) / 8]) for i in range(n)]
+        ops.append("ecmatrace %d %d %s" % (r.range(1, 10 ** 6), r.range(5, steps), nums(x0)))
+        out.append(ops)
     for _ in range(k):
         ops, n, kind, box = gen_objective(r)
         _, oline, _ = gen_opt(r, n, box is not None, kinds=["cmsa"])
